@@ -234,7 +234,7 @@ func ruleR32R33(c *Ctx) {
 		total += n
 	}
 	c.r.note("R32: %d uses of unsafe classified", total)
-	if total < 40 {
+	if total < 20 {
 		c.r.undecided("R32", "coverage-floor unsafe uses", "-", fmt.Sprintf("only %d uses of unsafe classified", total), props...)
 	}
 	// leaf structs keep keys behind typed pointers
